@@ -169,6 +169,7 @@ static void note_exception(void)
 }
 
 /* ---------- open from the requested source ---------- */
+static unsigned char *g_exact;   /* exact-size copy of the input for src=mem */
 static FILE *g_stream;      /* FILE* behind a stream-mode buffer (closed by us after esl_msafile_Close) */
 static char  g_path[64];
 
@@ -178,7 +179,9 @@ static int open_source(ESL_ALPHABET **byp, const unsigned char *b, int64_t n, in
   g_stream = NULL; g_path[0] = 0;
   esl_verif_buffer_pagesize = ps; esl_verif_buffer_forcemode = 0;
   if (!strcmp(src, "mem")) {
-    status = esl_msafile_OpenMem(byp, (const char *) b, n, fmt, NULL, ret_afp);
+    free(g_exact); g_exact = malloc(n > 0 ? (size_t) n : 1);
+    if (n > 0) memcpy(g_exact, b, (size_t) n);
+    status = esl_msafile_OpenMem(byp, (const char *) g_exact, n, fmt, NULL, ret_afp);
   } else {
     FILE *fp;
     snprintf(g_path, sizeof(g_path), "h_msafile_%d.%s", (int) getpid(), sfx ? sfx : "dat");
@@ -207,6 +210,7 @@ static void close_source(ESL_MSAFILE *afp)
   if (afp) esl_msafile_Close(afp);
   if (g_stream) { fclose(g_stream); g_stream = NULL; }
   if (g_path[0]) { unlink(g_path); g_path[0] = 0; }
+  free(g_exact); g_exact = NULL;
 }
 
 /* read all alignments from afp; appends " rd=<status>[...]" segments */
@@ -224,6 +228,7 @@ static void read_all(ESL_MSAFILE *afp, int maxreads)
     } else {
       sb_printf(" rd=%s", h_status(status));
       if (status == eslEFORMAT) sb_puts(afp->errmsg[0] ? ":msg" : ":nomsg");
+      if (status == eslEOF && afp->errmsg[0]) sb_puts(":msg");      /* documented: "returns eslEOF, and afp->errmsg is blank" */
       if (msa) sb_puts(" nonnullmsa");
       note_exception();
       return;
